@@ -188,7 +188,7 @@ class C08(c06.C06):
         self.compare_held(op)
 
     # ------------------------------------------------------------------
-    def graph(self, op):
+    def graph(self, op, ignore_items=False):
         mach, ev, ctx = self.mach, self.ev, self.ctx
         m = mach.world.m
         # 1. nodes and edges of the model's graph
@@ -206,6 +206,11 @@ class C08(c06.C06):
         # object nodes of uncached cells may outlive their callers as isolated leftovers (they are not elements);
         # they must be present when a held element called the uncached cells, and edges are compared exactly below
         got_nodes = {n for n in got_nodes if n[0] != "obj" or n in exp_nodes}
+        if ignore_items:
+            # (a caller whose corpus has ItemSpaces that it does not follow as elements)
+            got_nodes = {n for n in got_nodes if n[1] is not None}
+            got_edges = {(a, b) for a, b in got_edges if a[1] is not None and b[1] is not None}
+            exp_edges = {(a, b) for a, b in exp_edges if a[1] is not None and b[1] is not None}
         if got_nodes != exp_nodes:
             extra = sorted(map(repr, got_nodes - exp_nodes))[:5]
             missing = sorted(map(repr, exp_nodes - got_nodes))[:5]
@@ -231,12 +236,15 @@ class C08(c06.C06):
             d, c = gen.visible_cells(s)[el[1]]
             live = mach.world.space(el[0]).cells[el[1]]
             ctx.count("elements_checked", 1, "reach")
-            preds = {node_id(n) for n in live.preds(*el[2])}
+            skip = (lambda n: hasattr(n.obj, "cells")) if ignore_items else (lambda n: False)
+            preds = {node_id(n) for n in live.preds(*el[2]) if not skip(n)}
             want = set(ev.edges.get(el, set()))
+            if ignore_items:
+                want = {x for x in want if x[1] is not None}
             if preds != want:
                 raise Violation("C08/preds-differ/%s" % ("extra" if preds - want else "missing"),
                                 {"element": repr(el), "modelx": sorted(map(repr, preds)), "evaluator": sorted(map(repr, want)), "after": c06.strip(op)})
-            succs = {node_id(n) for n in live.succs(*el[2])}
+            succs = {node_id(n) for n in live.succs(*el[2]) if not skip(n)}
             wants = {x for x in inv.get(el, set()) if x in ev.memo}
             if succs != wants:
                 raise Violation("C08/succs-differ/%s" % ("extra" if succs - wants else "missing"),
@@ -246,7 +254,7 @@ class C08(c06.C06):
                 ctx.nontrivial = True
             if el in ev.inputs or c.formula is None:
                 continue
-            prec = {node_id(n) for n in live.precedents(*el[2])}
+            prec = {node_id(n) for n in live.precedents(*el[2]) if not skip(n)}
             inst = ev.sinst(s)
             vrefs = set()
             for g in global_names(c.formula):
@@ -265,6 +273,10 @@ class C08(c06.C06):
             wantp = want | vrefs | arefs
             # references read by attribute inside uncached callees may be listed too (they are handed on to the caller)
             allowed = wantp | {("ref", a, b) for a, b in ev.attrpass.get(el, set())}
+            if ignore_items:
+                # references read inside ItemSpaces are attributed differently by the two sides: only what must be there
+                allowed = prec | wantp
+                wantp = {x for x in wantp if "[" not in str(x[1])}
             if not (wantp <= prec <= allowed):
                 extra = sorted(map(repr, prec - allowed))
                 missing = sorted(map(repr, wantp - prec))
